@@ -241,12 +241,36 @@ def _headers_of(out):
         return None
 
 
+def _wap_prefix_dir(w, handlers, part):
+    """/wap/<x> through WAP is the WAP view of /<x> -- also when <x> itself starts with 'wap/'."""
+    import os as _os
+
+    data = b"inside the wap directory\n"
+    rig.write_file(_os.path.join(w.root, "wap", "inner.txt"), data, mtime=1000000000)
+    rig.write_file(_os.path.join(w.root, "wap", "wap", "deeper.bin"), b"\0\1\2", mtime=1000000000)
+    for sel, want, mime in ((b"/wap/inner.txt", data, "text/vnd.wap.wml"), (b"/wap/wap/deeper.bin", b"\0\1\2", "application/octet-stream")):
+        r = w.serve(*rig.request("wap", sel))
+        part.evaluations += 1
+        ok = not r.internal_error
+        if ok:
+            try:
+                st, hd, body = parsers.split_http(r.out)
+                ct = dict((k.lower(), v) for k, v in hd).get(b"content-type", b"").decode()
+                ok = ct == mime and (body == want if mime != "text/vnd.wap.wml" else wml_to_lines(body) == source_lines(want))
+            except ValueError:
+                ok = False
+        if not ok:
+            part.violation("%s|wap|prefix-dir|%s" % (handlers, sel.decode()), "document %r fetched through WAP (request path /wap%s) is answered %r" % (sel, sel.decode(), r.out[:200]),
+                           {"kind": "wapdir", "handlers": handlers})
+
+
 def _shard(shard, seed, tier):
     part = core.Partial()
     handlers, items = shard
     filler = seed % 251
     w = _make_world(handlers)
     try:
+        _wap_prefix_dir(w, handlers, part)
         for cls, size, name in items:
             data = content(cls, size, filler)
             if name.endswith(b".Z") and handlers in ("full", "variant"):
@@ -360,6 +384,14 @@ def _shard_short(shard, seed, tier):
 
 def replay(case):
     global _current_chooser
+    if case["kind"] == "wapdir":
+        part = core.Partial()
+        w = _make_world(case["handlers"])
+        try:
+            _wap_prefix_dir(w, case["handlers"], part)
+        finally:
+            w.destroy()
+        return (part.violations[0][0], part.violations[0][1]) if part.violations else None
     if case["kind"] == "doc":
         w = _make_world(case["handlers"])
         try:
